@@ -119,6 +119,11 @@ TickitPen *tickit_pen_clone(const TickitPen *orig)
 
 static void destroy(TickitPen *pen)
 {
+  /* Destruction is not re-entrant: a handler notified here may still change
+   * the pen, which runs the change handlers under a reference; pinned above
+   * zero, dropping that reference cannot start a second destruction */
+  pen->refcount = 1;
+
   tickit_bindings_unbind_and_destroy(&pen->bindings, pen);
   free(pen);
 }
